@@ -24,6 +24,8 @@ ENGINES = [
 
 
 def main():
+    global ACCEPTED
+    ACCEPTED = set(open(os.path.join(HERE, "tools", "accepted.txt")).read().split())
     props = [json.loads(l) for l in open(os.path.join(HERE, "properties.jsonl"))]
     baseline = json.load(open("/root/.vp/BASELINE.json"))["cmd"].replace("--junitxml=<file>", "--junitxml=/tmp/twisted-baseline.junit.xml")
     hooks_commits = []
@@ -36,6 +38,7 @@ def main():
         pid = p["id"]
         path = os.path.join(HERE, "vf", "props", pid.lower() + ".py")
         ready = os.path.exists(path) and any(l.strip().startswith("READY = True") for l in open(path))
+        ready = ready and pid in ACCEPTED
         if not ready or pid in NOT_APPLICABLE:
             na.append({"property_id": pid, "reason": NOT_APPLICABLE.get(pid, "check not built yet in this round (design in DESIGN.md section 4)")})
             continue
